@@ -1588,6 +1588,23 @@ SoPlexBase<R>& SoPlexBase<R>::operator=(const SoPlexBase<R>& rhs)
          _rationalLUSolverBind = rhs._rationalLUSolverBind;
       }
 
+      // a scaled LP points to the scaler that scaled it and that scaler points to the scaling factors stored in the LP:
+      // after the copies above these pointers address objects of rhs; re-bind them to the objects of this copy
+      {
+         SPxScaler<R>* scalers[6] = {&_scalerUniequi, &_scalerBiequi, &_scalerGeo1, &_scalerGeo8, &_scalerGeoequi, &_scalerLeastsq};
+         const SPxScaler<R>* rhsScalers[6] = {&rhs._scalerUniequi, &rhs._scalerBiequi, &rhs._scalerGeo1, &rhs._scalerGeo8,
+                                              &rhs._scalerGeoequi, &rhs._scalerLeastsq
+                                             };
+
+         for(int k = 0; k < 6; k++)
+         {
+            scalers[k]->rebind(rhs._solver, *rhsScalers[k], _solver);
+
+            if(_realLP != &_solver)
+               scalers[k]->rebind(*rhs._realLP, *rhsScalers[k], *_realLP);
+         }
+      }
+
       // copy boolean flags
       _isRealLPLoaded = rhs._isRealLPLoaded;
       _isRealLPScaled = rhs._isRealLPScaled;
